@@ -808,3 +808,36 @@ def le_len_invariant(ctx, rule, owner_rx, field, buf, crates, floor=2):
                               "constructed with %s = %s, not shown to be within %s" % (field, B.named(f, val), buf), pt=(b.idx, i))
     ctx.floor(rule, "writes of %s.%s" % (owner_rx, field), n, floor)
     return inv
+
+
+def overflow_audit(ctx, rule, fns, exceptions=None):
+    """Arithmetic on a value decoded from the input (`len + n`, `len - n`, `len * n`) must not be able to overflow: each decoded
+    operand of an addition/multiplication is capped by a dominating comparison with a buffer length or a constant (or by its
+    type/width), a subtraction's subtrahend is proved <= the minuend.  In debug builds the overflow is a panic, in release a
+    wrapped length that the following bounds checks were written against.  exceptions: {(fn skey, 'Add'|'Sub'|'Mul'): (count, why)}."""
+    from blue import bounds as B
+    exceptions = exceptions or {}
+    n = 0
+    for fn in sorted(fns, key=lambda f: f.key):
+        bf = B.BF(ctx.prog, fn)
+        open_ = {}
+        for s in bf.overflow_sites():
+            n += 1
+            why = bf.decide_overflow(s)
+            if why:
+                ctx.ok(rule, fn, "decoded length in `%s %s %s` cannot overflow (%s)" % (B.named(fn, s["ta"]), {"Add": "+", "Sub": "-", "Mul": "*"}[s["op"]], B.named(fn, s["tb"]), why), [s["pt"]])
+            else:
+                open_.setdefault(s["op"], []).append(s)
+        for op, lst in sorted(open_.items()):
+            exc = exceptions.get((fn.skey, op))
+            if exc and len(lst) <= exc[0]:
+                ctx.exception(rule, fn.skey, op, exc[1])
+                for s in lst:
+                    ctx.ok(rule, fn, "excepted %s site (%s)" % (op, exc[1]), [s["pt"]])
+                continue
+            for s in lst:
+                ctx.violate(rule, fn, "overflow:" + op,
+                            "`%s %s %s` is computed from a length decoded from the input before that length has been compared with any buffer "
+                            "length: a hostile length makes it overflow (a panic in debug builds, a wrapped value that passes the following check in "
+                            "release)" % (B.named(fn, s["ta"]), {"Add": "+", "Sub": "-", "Mul": "*"}[s["op"]], B.named(fn, s["tb"])), pt=s["pt"])
+    return n
